@@ -41,6 +41,10 @@ Consume ==
              [] e.ev = "close_any" -> IF cpc = "closed" THEN UNCHANGED dvars ELSE CCloseDone
              [] e.ev = "settled"   -> /\ ppc = "done" /\ cpc = "closed"
                                       /\ e.locked = locked /\ ~e.leak /\ ~e.late
+                                      \* Close STOPS the producer: after cancel it finishes at most the row it is working
+                                      \* on (PScan once more, then PSelectCancelled) -- measured in page reads done while
+                                      \* Close was running, against the cost of one row step
+                                      /\ ("closereads" \in DOMAIN e) => e.closereads <= e.rowcost
                                       /\ UNCHANGED dvars
              [] OTHER -> FALSE
     /\ l' = l + 1
